@@ -15,7 +15,7 @@ RULE = ("cases: (a) signing: valid secret keys of both public-key parities (edge
         "and a scripted Python nonce function; oracle: byte equality with pyref.bip340.sign, output verifies; "
         "(b) verification of (sig, msg, x-only key) triples: honest, single-bit flips of sig / message / key, r >= p, r off curve, r of another point, s >= n (n, n+1, 2^256-1, s+n wrapped), "
         "s = 0, n-s, the odd-y twin (x(R) = r but y odd), R = infinity (s = e*d), other key, other / truncated / extended message, boundary x-only keys; oracle: verdict of pyref.bip340.verify; "
-        "(c) order-13 / order-199 builds: honest signature verifies, every re-encoding s + k*order (k >= 1, < 2^256) is rejected (only group-agnostic relations). "
+        "(c) order-13 / order-199 builds: honest signature verifies, every re-encoding s + k*order (k >= 1, < 2^256) and the negation order - s are rejected (only group-agnostic relations). "
         "non-trivial = message length != 32, or aux absent, or the candidate is not an unmodified honest signature")
 ASSUMPTIONS = ["pyref.bip340 / pyref.ec implement BIP-340 (validated against the BIP's test vectors at selftest time)",
                "key objects handed to the API come from the library's own constructors / parsers",
@@ -283,7 +283,7 @@ def run_length(env, case):
 
 
 # ------------------------------------------------------------------ (b) verification
-MUTS = ["honest", "bitflip_sig", "bitflip_sig", "bitflip_msg", "bitflip_pk", "r_ge_p", "r_offcurve", "r_other", "s_ge_n", "s_ge_n", "s_zero", "s_neg",
+MUTS = ["honest", "bitflip_sig", "bitflip_sig", "bitflip_msg", "bitflip_pk", "r_ge_p", "r_offcurve", "r_other", "s_ge_n", "s_ge_n", "s_zero", "s_neg", "s_neg",
         "odd_y_twin", "odd_y_twin", "R_inf", "other_key", "msg_trunc", "msg_ext", "msg_tail", "swap_rs", "zero_sig", "r_zero_sinf", "other_msg_sig"]
 
 
@@ -559,6 +559,11 @@ def run_small(env, case):
     s = ec.b2i(sig[32:])
     env.require(s < order, "signer emitted s >= group order", s=s)
     classes.append("honest_ok")
+    if s != 0:
+        # (order - s)G - eP equals R only if 2sG = 0 (s = 0); the other point with x = r is -R, which has odd y: must be rejected in any odd prime-order group
+        env.require(lib_verify(env, sig[:32] + ec.i2b(order - s), msg, xpk) == 0,
+                    "honest signature with s replaced by its negation order - s was accepted", s=s, order=order, sig=sig)
+        classes.append("negated_s_rejected")
     for k in case["ks"]:
         s2 = s + k * order
         if s2 > M256:
@@ -586,11 +591,11 @@ TESTS = [
     Test("lengths", lengths_enum, run_length, kind="enum", cfgs=BOTH, max_workers=4, must_cover=["len_enum"]),
     Test("verify", verify_case, run_verify, quick=8000, thorough=250000, cfgs=FULL,
          must_cover=["accept", "reject", "r>=p", "r_offcurve", "s>=n", "long_msg", "mut:honest", "mut:odd_y_twin", "mut:R_inf", "mut:bitflip_sig",
-                     "mut:msg_tail", "mut:msg_trunc", "mut:other_key", "pk_parse_reject"]),
+                     "mut:msg_tail", "mut:msg_trunc", "mut:other_key", "mut:s_neg", "pk_parse_reject"]),
     Test("verify_vsan", verify_case, run_verify, quick=400, thorough=15000, cfgs=VSAN, must_cover=["accept", "reject", "s>=n"]),
     Test("bitflips", flips_case, run_flips, quick=9, thorough=400, cfgs=BOTH, must_cover=["all_512_flips"]),
     Test("xonly_boundary", xonly_case, run_xonly, quick=1000, thorough=40000, cfgs=FULL,
          must_cover=["x>=p", "x_on_curve", "x_off_curve", "reject"]),
     Test("small_group", small_case, run_small, quick=1500, thorough=60000, cfgs=SMALL,
-         must_cover=["honest_ok", "s_plus_k_order_rejected", "order=13", "order=199"]),
+         must_cover=["honest_ok", "s_plus_k_order_rejected", "negated_s_rejected", "order=13", "order=199"]),
 ]
